@@ -9,7 +9,7 @@ DRIVER = "c02"
 PROPS_MODULE = "OxyModel.Props.C02"
 AUDIT = "OxyModel/Audit/C02.lean"
 THEOREMS = ["C02.C02_refines_set", "C02.C02_refines_set_rebalancer", "C02.C02_selected_is_member",
-            "C02.C02_removed_never_selected", "C02.C02_added_within_rotation", "C02.C02_remove_unknown_noop",
+            "C02.C02_removed_never_selected", "C02.C02_added_within_rotation", "C02.C02_failed_add_noop", "C02.C02_remove_unknown_noop",
             "C02.C02_empty_is_error", "C02.C02_zero_is_error_partial", "C02.C02_zero_is_error_counterexample",
             "C02.C02_handout_fresh", "C02.C02_downstream_mutation_noop"]
 RACE = True
@@ -84,7 +84,15 @@ def gen(rng, tier):
                 lines.append("weight %s %s %s" % rng.choice(keys))
             elif r < 0.49:
                 lines += ["race %d %d" % (rng.randint(0, 40), rng.randint(0, 40)), "servers"]
-            elif r < 0.56 and via == "rb":
+            elif r < 0.52 and via == "rb":
+                # an add whose meter factory fails: rolled back, the server must stay absent
+                u = _url(rng, keys if rng.random() < 0.8 else allkeys)
+                if rng.random() < 0.5:
+                    u += " w=%d" % rng.choice(WEIGHTS)
+                lines += ["upsert " + u + " meterfail=1", "servers", "weights"]
+                lines += ["next"] * rng.randint(1, 5)
+                lines += ["serve"] * rng.randint(0, 2)
+            elif r < 0.60 and via == "rb":
                 # a removal issued while a request's weight adjustment is being applied: make one server an
                 # outlier (or let weights converge back), all meters ready, clock past the back-off
                 for k in keys:
@@ -94,7 +102,7 @@ def gen(rng, tier):
                     lines.append("rate %s %s %s %d/16" % (k + ((8 if k == bad else 0) if rng.random() < 0.8 else 0,)))
                 lines.append("adv %d" % (10 ** 9 + 1))
                 victim = rng.choice(keys if rng.random() < 0.9 else allkeys)
-                lines += ["serve-remove %s %s %s" % victim, "servers", "weights"]
+                lines += ["%s %s %s %s" % ((rng.choice(["serve-remove", "remove-serve"]),) + victim), "servers", "weights"]
                 lines += ["next"] * rng.randint(2, 6)
                 lines += ["serve"] * rng.randint(0, 3)
                 if rng.random() < 0.5:
@@ -210,11 +218,24 @@ def walk(ops, outs):
                 ref.pool.pop(k, None)
             yield ref, ["remove"] + f[1:], b, info
             continue
+        if f[0] == "remove-serve" and len(f) == 4 and " ; " in o:
+            # a removal, then (atomically after it) the request that was issued while it was in progress
+            a, b = o.split(" ; ", 1)
+            k = _key(f[1:])
+            info = {"known": k in ref.pool, "raced": True}
+            if a == "ok":
+                ref.pool.pop(k, None)
+            yield ref, ["remove"] + f[1:], a, info
+            yield ref, ["serve"], b, {"raced": True}
+            yield ref, ["iter-reset"], "", {}
+            continue
         info = {}
         if f[0] == "upsert" and len(f) >= 4:
             k = _key(f[1:])
             w = _w(f[1:])
             info["known"] = k in ref.pool
+            # the rebalancer creates a meter only for a server it has no record of
+            info["meterfail"] = "meterfail=1" in f[4:] and ref.via == "rb" and k not in ref.pool and not (w is not None and w < 0)
             if w is not None and w < 0:
                 info["neg"] = True
             elif o == "ok":
@@ -246,6 +267,10 @@ def monitor(ops, outs):
             if info.get("neg"):
                 if o == "ok":
                     bad.append("upsert: a negative weight was accepted")
+            elif info.get("meterfail"):
+                if o != "err meter":
+                    bad.append("upsert: the meter factory failed but the add answered %s" % o)
+                run = []        # the rolled-back insert reset the iterator
             elif o != "ok":
                 bad.append("upsert: add/update of %s failed: %s" % (" ".join(f[1:4]), o))
         elif op == "remove":
@@ -277,7 +302,9 @@ def monitor(ops, outs):
             if o.startswith(okp):
                 parts = o.split()
                 url = parts[1]
-                if url not in members:
+                if url == "member":
+                    pass            # raced request: the harness reports only that it went to a current member
+                elif url not in members:
                     bad.append("non-member: %s routed to %s which is not in the pool %s" % (op, url, members))
                 if op == "serve" and (len(parts) < 3 or parts[2] != "fresh"):
                     bad.append("alias: the request handed downstream carries the pool's own URL object (%s)" % o)
@@ -295,7 +322,9 @@ def monitor(ops, outs):
                     # pinned requests are forwarded; an error here is a lost member
                     bad.append("sticky-lost: cookie names a member but the request failed: %s" % o)
         # ---- added server is selected within one full rotation -------------------------------------------------
-        if (op in ("upsert", "remove") and o == "ok") or op == "race":
+        if op == "iter-reset":
+            run = []
+        elif (op in ("upsert", "remove") and o == "ok") or op == "race":
             run, run_ok = [], True       # every successful change resets the iterator (and, behind the rebalancer, the weights)
             eff = {v[0]: v[1] for v in ref.pool.values()}
         elif op == "weights":
@@ -309,7 +338,7 @@ def monitor(ops, outs):
                 run, run_ok = [], False      # the rebalancer may have re-weighted
             elif stuck:
                 pass                         # pinned request: no rotation step
-            elif o.startswith("200 "):
+            elif o.startswith("200 ") and o.split()[1] != "member":
                 run.append(o.split()[1])
         elif op == "next" and o.startswith("ok "):
             run.append(o.split()[1])
